@@ -12,10 +12,12 @@ import (
 	"strconv"
 	"strings"
 	"sync"
+	"sync/atomic"
 	"time"
 
 	shell_operator "github.com/flant/shell-operator/pkg/shell-operator"
 	"github.com/flant/shell-operator/pkg/utils/string_helper"
+	"github.com/flant/shell-operator/pkg/utils/verifsched"
 	"github.com/flant/shell-operator/pkg/webhook/admission"
 )
 
@@ -27,6 +29,10 @@ const c14HookScript = `#!/usr/bin/env bash
 ctl="$(cd "$(dirname "$0")/.." && pwd)/ctl"
 me="$(basename "$0")"
 if [[ "$1" == "--config" ]]; then cat "$ctl/$me.cfg"; exit 0; fi
+wait_for() { local i; for ((i = 0; i < 1500; i++)); do [[ -e "$1" ]] && return 0; sleep 0.02; done; return 1; }
+# overlapping requests: the run is prepared (its files are written) and the process runs, but it has not
+# read its binding context yet — it tells the harness and waits to be let go
+if [[ -e "$ctl/sync/pregate" ]]; then tok="$ctl/sync/proc.$$.$(date +%s%N)"; : > "$tok.ready"; wait_for "$tok.go"; fi
 binding=$(jq -r '.[0].binding' "$BINDING_CONTEXT_PATH")
 uid=$(jq -r '.[0].review.request.uid' "$BINDING_CONTEXT_PATH")
 idx=$(grep -nxF -- "$binding" "$ctl/$me.names" | head -1 | cut -d: -f1)
@@ -34,7 +40,6 @@ echo "$me ${idx:-0} $uid" >> "$ctl/log"
 # what to do: per request (ctl/uid.<uid>.*) if scripted, else per binding (ctl/<hook>.<index>.*)
 base="$ctl/$me.$idx"
 if [[ -f "$ctl/uid.$uid.exit" ]]; then base="$ctl/uid.$uid"; fi
-wait_for() { local i; for ((i = 0; i < 1500; i++)); do [[ -e "$1" ]] && return 0; sleep 0.02; done; return 1; }
 # overlapping requests: the harness scripts the order of "writes its files" and "exits" with marker files
 if [[ -f "$base.gate" ]]; then : > "$ctl/sync/$uid.started"; wait_for "$ctl/sync/$uid.write"; fi
 if [[ -f "$base.resp" ]]; then cat "$base.resp" > "$VALIDATING_RESPONSE_PATH"; fi
@@ -230,23 +235,26 @@ type c14Req struct {
 }
 
 // one step of a case: a single request, or several overlapping requests whose hook runs are
-// interleaved as Sched says: "s<i>" request i is sent (its run is prepared, its hook process starts),
-// "w<i>" its hook writes its output files, "x<i>" its hook exits and the request is answered.
+// interleaved as Sched says: "h<i>" request i is sent and handed over by the hook manager (its task with
+// its binding context is built; the hook run has not begun), "p<i>" its run is prepared (Hook.Run wrote
+// the run's files, the binding context file among them; the process waits in front of reading it) — both
+// optional, "s<i>" alone goes through them —, "s<i>" its hook process starts, "w<i>" its hook writes its output files,
+// "x<i>" its hook exits and the request is answered.
 type c14Step struct {
 	Reqs  []c14Req
 	Sched []string
 }
 
-// c14RandSched: a random interleaving of s<i> < w<i> < x<i> for n requests
+// c14RandSched: a random interleaving of h<i> < p<i> < s<i> < w<i> < x<i> for n requests
 func c14RandSched(rng *Rng, n int) []string {
 	next := make([]int, n)
 	var out []string
-	for len(out) < 3*n {
+	for len(out) < 5*n {
 		i := rng.Intn(n)
-		if next[i] >= 3 {
+		if next[i] >= 5 {
 			continue
 		}
-		out = append(out, fmt.Sprintf("%c%d", "swx"[next[i]], i+1))
+		out = append(out, fmt.Sprintf("%c%d", "hpswx"[next[i]], i+1))
 		next[i]++
 	}
 	return out
@@ -375,11 +383,16 @@ func c14RunSteps(r *Run, c *Case, hooks []c14Hook, steps []c14Step) {
 
 	// the op line and the oracle line of one answered request; logLines = what the hook processes
 	// logged during the step, stepUIDs = the uids of the step's requests
-	report := func(q c14Req, rec *httptest.ResponseRecorder, logLines []string, stepUIDs map[string]bool) {
+	// own = the log line of the hook process that was started for this request, when the scripted
+	// interleaving tells ("" = the lines that carry the request's uid)
+	report := func(q c14Req, rec *httptest.ResponseRecorder, logLines []string, stepUIDs map[string]bool, own string) {
 		// who ran
 		ran := "-"
 		var mine []string
 		foreign := 0
+		if own != "" {
+			mine, logLines = []string{own}, nil
+		}
 		for _, l := range logLines {
 			f := strings.Fields(l)
 			if len(f) >= 3 && f[2] == q.UID {
@@ -498,22 +511,108 @@ func c14RunSteps(r *Run, c *Case, hooks []c14Hook, steps []c14Step) {
 			}
 		}
 		recs := make([]*httptest.ResponseRecorder, len(st.Reqs))
+		// overlapping requests: the index in the log of the line of the process started for request i (-1 = not known)
+		procIdx := make([]int, len(st.Reqs))
+		for i := range procIdx {
+			procIdx[i] = -1
+		}
 		if len(st.Sched) == 0 {
 			for i, q := range st.Reqs {
 				recs[i] = send(q)
 			}
 		} else {
 			// overlapping requests, interleaved as scripted
-			done := make([]chan *httptest.ResponseRecorder, len(st.Reqs))
-			hookRuns := make([]bool, len(st.Reqs))
-			// waits until the marker exists or request i is answered; "" = timeout
-			await := func(i int, marker string) string {
+			n := len(st.Reqs)
+			done := make([]chan *httptest.ResponseRecorder, n)
+			arrive := make([]<-chan *verifsched.Arrival, n)
+			parkedT := make([]*verifsched.Arrival, n) // parked between HandleAdmissionEvent and taskHandler
+			parkedE := make([]string, n)              // its hook process waits at the gate in front of reading its binding context (token)
+			// 0 not sent · 1 handed over (task built) · 2 run prepared · 3 hook process started
+			stage := make([]int, n)
+			hookRuns := make([]bool, n)
+			stepDone := make(chan struct{})
+			key := func(i int) string { return "admission/" + st.Reqs[i].UID }
+			// the gate in front of every hook process of this step: the process announces itself (a token
+			// file) before it reads its binding context and waits to be let go
+			pregate := filepath.Join(syncDir, "pregate")
+			touch(pregate)
+			var execOpen atomic.Bool // true: let every process through
+			seenTok := map[string]bool{}
+			if old, _ := filepath.Glob(filepath.Join(syncDir, "proc.*.ready")); len(old) > 0 { // of earlier steps
+				for _, f := range old {
+					seenTok[f] = true
+				}
+			}
+			newTokens := func() []string {
+				m, _ := filepath.Glob(filepath.Join(syncDir, "proc.*.ready"))
+				var out []string
+				for _, f := range m {
+					if !seenTok[f] {
+						seenTok[f] = true
+						out = append(out, strings.TrimSuffix(f, ".ready"))
+					}
+				}
+				return out
+			}
+			logPath := filepath.Join(ctl, "log")
+			// the complete lines the hook processes of this step have logged so far
+			logNow := func() []string {
+				b, _ := os.ReadFile(logPath)
+				t := string(b)
+				if k := strings.LastIndexByte(t, '\n'); k >= 0 {
+					t = t[:k]
+				} else {
+					t = ""
+				}
+				var out []string
+				for _, l := range strings.Split(t, "\n") {
+					if l != "" {
+						out = append(out, l)
+					}
+				}
+				return out
+			}
+			logSeen := 0
+			// sends request i; park: its goroutine stops at the yield point between HandleAdmissionEvent
+			// (the task with its binding context is built) and taskHandler (the hook run)
+			launch := func(i int, park bool) {
+				if park {
+					arrive[i] = sched.Subscribe(key(i))
+				}
+				done[i] = make(chan *httptest.ResponseRecorder, 1)
+				go func(q c14Req, ch chan *httptest.ResponseRecorder) { ch <- send(q) }(st.Reqs[i], done[i])
+			}
+			// waits until cond holds ("ok"), request i is parked at the yield point asked for (want 'T' / 'E':
+			// "parked") or request i is answered ("answered"); "" = timeout
+			await := func(i int, want byte, cond func() bool) string {
 				deadline := time.Now().Add(waitMax)
 				for time.Now().Before(deadline) {
-					if marker != "" && exists(marker) {
-						return "marker"
+					if cond != nil && cond() {
+						return "ok"
 					}
-					if recs[i] == nil {
+					if execOpen.Load() {
+						for _, tok := range newTokens() {
+							touch(tok + ".go")
+						}
+					}
+					if want == 'T' && arrive[i] != nil {
+						select {
+						case parkedT[i] = <-arrive[i]:
+							return "parked"
+						default:
+						}
+					}
+					if want == 'E' {
+						// one request moves at a time: the process that gets here is the run of request i
+						if toks := newTokens(); len(toks) > 0 {
+							parkedE[i] = toks[0]
+							for _, t := range toks[1:] { // never expected: more than one process for one request
+								touch(t + ".go")
+							}
+							return "parked"
+						}
+					}
+					if recs[i] == nil && done[i] != nil {
 						select {
 						case recs[i] = <-done[i]:
 						default:
@@ -526,55 +625,173 @@ func c14RunSteps(r *Run, c *Case, hooks []c14Hook, steps []c14Step) {
 				}
 				return ""
 			}
-			stuck := ""
+			// lets request i pass the first yield point (now, or as soon as it gets there)
+			releaseT := func(i int) {
+				if parkedT[i] != nil {
+					parkedT[i].Release()
+					parkedT[i] = nil
+				} else if arrive[i] != nil && recs[i] == nil {
+					go func(ch <-chan *verifsched.Arrival) {
+						select {
+						case a := <-ch:
+							a.Release()
+						case <-stepDone:
+						}
+					}(arrive[i])
+				}
+				arrive[i] = nil
+			}
+			// opens every gate of the step and collects the answers
+			finishAll := func() {
+				execOpen.Store(true)
+				_ = os.Remove(pregate)
+				for _, q := range st.Reqs {
+					touch(filepath.Join(syncDir, q.UID+".write"))
+					touch(filepath.Join(syncDir, q.UID+".go"))
+				}
+				for i := range st.Reqs {
+					if parkedE[i] != "" {
+						touch(parkedE[i] + ".go")
+						parkedE[i] = ""
+					}
+					if stage[i] == 0 && done[i] == nil {
+						launch(i, false)
+					} else {
+						releaseT(i)
+					}
+				}
+				for i := range st.Reqs {
+					await(i, 0, nil)
+				}
+			}
+			// what the hook process started for request i found in its binding context (from its log line)
+			type found struct {
+				hid       int
+				name, uid string
+			}
+			var got found
+			// moves request i forward to the stage asked for: "ok" (reached), "answered" (the request was
+			// answered on the way), "" (a yield point / marker did not show up in time)
+			advance := func(i, to int) string {
+				for stage[i] < to {
+					if recs[i] != nil {
+						return "answered"
+					}
+					var r string
+					switch stage[i] {
+					case 0:
+						launch(i, true)
+						r = await(i, 'T', nil)
+					case 1:
+						releaseT(i)
+						r = await(i, 'E', nil)
+					case 2:
+						before := logSeen
+						if parkedE[i] != "" {
+							touch(parkedE[i] + ".go")
+							parkedE[i] = ""
+						}
+						r = await(i, 0, func() bool { return len(logNow()) > before })
+						if r == "ok" {
+							// exactly one request was let go: the new log line is its hook process
+							lines := logNow()
+							f := strings.Fields(lines[before])
+							logSeen = len(lines)
+							procIdx[i] = before
+							got = found{-1, "?", "?"}
+							if len(f) >= 3 {
+								idx, _ := strconv.Atoi(f[1])
+								got.hid, got.name = nameOf(f[0], idx)
+								got.uid = f[2]
+							}
+						}
+					}
+					switch r {
+					case "parked", "ok":
+						stage[i]++
+					default:
+						return r
+					}
+				}
+				return "ok"
+			}
+			stuck, deviated := "", false
 			for _, ev := range st.Sched {
 				i, _ := strconv.Atoi(ev[1:])
 				i--
 				q := st.Reqs[i]
 				sy := filepath.Join(syncDir, q.UID)
 				switch ev[0] {
-				case 's':
-					done[i] = make(chan *httptest.ResponseRecorder, 1)
-					go func(q c14Req, ch chan *httptest.ResponseRecorder) { ch <- send(q) }(q, done[i])
-					switch await(i, sy+".started") {
-					case "marker":
-						hookRuns[i] = true
-						c.Op(fmt.Sprintf("ov start %s path=%s", c14Enc(q.UID), c14Enc(q.Path)), "started")
+				case 'h', 'p':
+					to, line, yes := 1, "ov hand", "handed"
+					if ev[0] == 'p' {
+						to, line, yes = 2, "ov prep", "prepared"
+					}
+					line = fmt.Sprintf("%s %s path=%s", line, c14Enc(q.UID), c14Enc(q.Path))
+					switch advance(i, to) {
+					case "ok":
+						c.Op(line, yes)
 					case "answered":
-						c.Op(fmt.Sprintf("ov start %s path=%s", c14Enc(q.UID), c14Enc(q.Path)), "answered")
+						c.Op(line, "answered")
+					default:
+						stuck = ev
+					}
+				case 's':
+					startLine := fmt.Sprintf("ov start %s path=%s", c14Enc(q.UID), c14Enc(q.Path))
+					if stage[i] >= 3 {
+						break
+					}
+					switch advance(i, 3) {
+					case "ok":
+						if got.uid == q.UID {
+							if await(i, 0, func() bool { return exists(sy + ".started") }) == "" {
+								stuck = ev
+								break
+							}
+							hookRuns[i] = true
+							c.Op(startLine, "started")
+						} else {
+							c.Op(startLine, "handed-another-request")
+							deviated = true
+						}
+						c.Oracle(fmt.Sprintf("handed path=%s uid=%s ghook=%d gbinding=%s guid=%s", c14Enc(q.Path), c14Enc(q.UID), got.hid, c14Enc(got.name), c14Enc(got.uid)))
+					case "answered":
+						c.Op(startLine, "answered")
 					default:
 						stuck = ev
 					}
 				case 'w':
 					touch(sy + ".write")
-					if hookRuns[i] && await(i, sy+".wrote") == "" {
+					if hookRuns[i] && await(i, 0, func() bool { return exists(sy + ".wrote") }) == "" {
 						stuck = ev
 					}
 					c.Op("ov write "+c14Enc(q.UID), "ok")
 				case 'x':
 					touch(sy + ".go")
-					if await(i, "") == "" {
+					if await(i, 0, nil) == "" {
 						stuck = ev
 					}
 					c.Op("ov exit "+c14Enc(q.UID), "ok")
 				}
-				if stuck != "" {
+				if stuck != "" || deviated {
 					break
 				}
 			}
+			if stuck != "" || deviated {
+				// let every run end: the script cannot be followed any further
+				finishAll()
+			}
+			for i := range st.Reqs {
+				sched.Unsubscribe(key(i))
+			}
+			_ = os.Remove(pregate)
+			close(stepDone)
 			if stuck != "" {
-				// release everything and let the runs end; the case cannot be decided
-				for _, q := range st.Reqs {
-					touch(filepath.Join(syncDir, q.UID+".write"))
-					touch(filepath.Join(syncDir, q.UID+".go"))
-				}
-				for i := range st.Reqs {
-					if done[i] != nil {
-						await(i, "")
-					}
-				}
-				c.Inconcl = "the scripted interleaving got stuck at " + stuck + " (a marker file did not appear in time)"
+				c.Inconcl = "the scripted interleaving got stuck at " + stuck + " (a yield point was not reached or a marker did not appear in time)"
 				return
+			}
+			if deviated {
+				c.Note("overlap:a-hook-process-was-handed-another-request")
 			}
 			c.Note(fmt.Sprintf("overlap:requests=%d", len(st.Reqs)))
 		}
@@ -586,7 +803,21 @@ func c14RunSteps(r *Run, c *Case, hooks []c14Hook, steps []c14Step) {
 			}
 		}
 		for i, q := range st.Reqs {
-			report(q, recs[i], logLines, uids)
+			if procIdx[i] >= 0 && procIdx[i] < len(logLines) {
+				report(q, recs[i], nil, uids, logLines[procIdx[i]])
+				continue
+			}
+			var rest []string
+			for k, l := range logLines {
+				claimed := false
+				for _, x := range procIdx {
+					claimed = claimed || x == k
+				}
+				if !claimed {
+					rest = append(rest, l)
+				}
+			}
+			report(q, recs[i], rest, uids, "")
 		}
 	}
 }
@@ -634,7 +865,7 @@ func c14Variant(rng *Rng, p string) string {
 }
 
 func runC14(r *Run) {
-	r.Rule = "1-3 hooks with 1-3 validating/mutating bindings each (fully qualified names for validating; arbitrary names for mutating: upper case, blanks, slashes, empty path segments, non-ASCII; names whose SafeURL forms collide within and across hooks), a scripted outcome per (hook, binding): exit code x response file (empty, not JSON, truncated, wrong types, bad base64, JSON followed by garbage, two documents, {}, null, unknown fields, allowed/denied with message/warnings/base64 JSONPatch); 3-6 requests per case: registered paths and variants (trailing/double slashes, upper case, other configuration id, prefix/suffix changes, unknown, /, /hooks), bodies valid / garbage / without request. A run may also leave metric / object patch operation files behind (a valid metric operation; a metrics file that is not JSON; a metric operation that does not validate; an unknown object patch operation; an unparsable object patch file) — all but the first make the hook task fail after a clean exit. Overlap cases: 2-3 requests in flight at the same time (mostly to the same hook and binding, each with its own scripted outcome), the order of \"run prepared / hook writes its files / hook exits\" over all of them chosen at random and forced with marker files. Everything runs through the real chain: chi router of the admission WebhookHandler (httptest) -> the event closure of initValidatingWebhookManager -> HookManager routing -> taskHandler -> Hook.Run -> bash -> response file -> AdmissionReview. Plus differential lines for SafeURLString and detectConfigurationAndWebhook on random strings. A case is non-trivial when a hook process ran; distinct = distinct op-line sequences."
+	r.Rule = "1-3 hooks with 1-3 validating/mutating bindings each (fully qualified names for validating; arbitrary names for mutating: upper case, blanks, slashes, empty path segments, non-ASCII; names whose SafeURL forms collide within and across hooks), a scripted outcome per (hook, binding): exit code x response file (empty, not JSON, truncated, wrong types, bad base64, JSON followed by garbage, two documents, {}, null, unknown fields, allowed/denied with message/warnings/base64 JSONPatch); 3-6 requests per case: registered paths and variants (trailing/double slashes, upper case, other configuration id, prefix/suffix changes, unknown, /, /hooks), bodies valid / garbage / without request. A run may also leave metric / object patch operation files behind (a valid metric operation; a metrics file that is not JSON; a metric operation that does not validate; an unknown object patch operation; an unparsable object patch file) — all but the first make the hook task fail after a clean exit. Overlap cases: 2-4 requests in flight at the same time (mostly to the same hook and binding, also to other bindings of the same hook and to other hooks, each with its own uid and its own scripted outcome), the order of \"handed over by the hook manager (task and binding context built, hook run not begun) / run prepared (Hook.Run wrote the binding context file and the other files, process not started) / hook process started / hook writes its files / hook exits\" over all of them chosen at random and forced with a yield point in the event closure (verifsched admission.taskBuilt), a gate at the very start of the hook process (before it reads its binding context) and marker files; every hook process is checked against the request it was started for (which request uid, which hook and binding it found in its binding context), every answer against its own request. Everything runs through the real chain: chi router of the admission WebhookHandler (httptest) -> the event closure of initValidatingWebhookManager -> HookManager routing -> taskHandler -> Hook.Run -> bash -> response file -> AdmissionReview. Plus differential lines for SafeURLString and detectConfigurationAndWebhook on random strings. A case is non-trivial when a hook process ran; distinct = distinct op-line sequences."
 	c14SharedHook(r)
 
 	// ---- corpus
@@ -719,6 +950,28 @@ func runC14(r *Run) {
 				Sched: []string{"s1", "s2", "s3", "w2", "w3", "w1", "x1", "x3", "x2"}},
 			{Reqs: []c14Req{{"/hooks/gate-example-com", "ok", "ov3-D", &allow1}, {"/hooks/nope", "ok", "ov3-E", &allow}, {"/hooks/gate-example-com", "ok", "ov3-F", &deny}},
 				Sched: []string{"s1", "w1", "s2", "s3", "w3", "w2", "x2", "x1", "x3"}},
+		})
+	})
+
+	r.One(6, func(c *Case, _ *Rng) {
+		c.Desc = "corpus: requests handed over by the hook manager while earlier ones wait for their hook run: two to one binding, four over two bindings of one hook and another hook"
+		deny := func(tag string) *c14Outcome {
+			return &c14Outcome{Kind: "d", Msg: "denied " + tag, Content: fmt.Sprintf(`{"allowed":false,"message":"denied %s"}`, tag)}
+		}
+		allow := func(tag string) *c14Outcome {
+			return &c14Outcome{Kind: "a", Warns: []string{"for " + tag}, Content: fmt.Sprintf(`{"allowed":true,"warnings":["for %s"]}`, tag)}
+		}
+		h1 := c14Hook{ID: 1, Bindings: []c14Binding{{"v", "gate.example.com"}, {"m", "mutGate"}}, Out: map[string]c14Outcome{"gate.example.com": {Kind: "e"}, "mutGate": {Kind: "e"}}}
+		h2 := c14Hook{ID: 2, Bindings: []c14Binding{{"v", "other.example.com"}}, Out: map[string]c14Outcome{"other.example.com": {Kind: "e"}}}
+		g, m, o := "/hooks/gate-example-com", "/hooks/mut-gate", "/hooks/other-example-com"
+		c14RunSteps(r, c, []c14Hook{h1, h2}, []c14Step{
+			{Reqs: []c14Req{{g, "ok", "hd-A", deny("A")}, {g, "ok", "hd-B", allow("B")}}, Sched: []string{"h1", "h2", "s1", "s2", "w1", "w2", "x1", "x2"}},
+			{Reqs: []c14Req{{g, "ok", "hd-J", allow("J")}, {g, "ok", "hd-K", deny("K")}}, Sched: []string{"h1", "p1", "h2", "p2", "s1", "s2", "w2", "w1", "x2", "x1"}},
+			{Reqs: []c14Req{{g, "ok", "hd-L", deny("L")}, {m, "ok", "hd-M", allow("M")}, {g, "ok", "hd-N", allow("N")}}, Sched: []string{"h1", "h2", "p2", "h3", "p3", "p1", "s3", "s1", "s2", "w1", "w2", "w3", "x3", "x2", "x1"}},
+			{Reqs: []c14Req{{g, "ok", "hd-C", allow("C")}, {g, "ok", "hd-D", deny("D")}}, Sched: []string{"h2", "h1", "s2", "w2", "x2", "s1", "w1", "x1"}},
+			{Reqs: []c14Req{{g, "ok", "hd-E", deny("E")}, {m, "ok", "hd-F", allow("F")}, {g, "ok", "hd-G", allow("G")}, {o, "ok", "hd-H", deny("H")}},
+				Sched: []string{"h1", "h2", "h3", "h4", "s4", "s3", "s2", "s1", "w1", "w2", "w3", "w4", "x4", "x1", "x3", "x2"}},
+			{Reqs: []c14Req{{m, "ok", "hd-I", allow("I")}}},
 		})
 	})
 
@@ -924,8 +1177,10 @@ func runC14(r *Run) {
 		u := 0
 		for s, ns := 0, rng.Range(1, 2); s < ns; s++ {
 			st := c14Step{}
-			nq := 2
-			if rng.Chance(30) {
+			nq := 2 // 2-4 requests in flight
+			if k := rng.Intn(100); k < 20 {
+				nq = 4
+			} else if k < 50 {
 				nq = 3
 			}
 			target := PickOne(rng, paths)
